@@ -1,4 +1,5 @@
 #!/bin/bash
+export VERIF_EVIDENCE_DIR=/tmp/verif-changed-tree-evidence   # evidence of runs against a changed tree must not land in /verif/evidence
 # seeded_all.sh [id...] : run every kept seeded change (or the named ones) against the current checks and
 # write one line per change to /verif/seeded/RESULTS.txt ("caught by <prop> <signature>" or "MISSED").
 cd /verif || exit 2
